@@ -17,8 +17,6 @@ RULE = ("shape triples (m,n,k) are enumerated exhaustively (quick: 1..4, thoroug
         "model answers ok or err; it is counted once per distinct (operation, spelling, operand shapes, outcome).")
 CORR_ONLY = ["Normalize/Normalized of vectors with an irrational norm: the rational model answers undef; decided by the oracle "
              "against a 300-bit square root",
-             "Matrix::Norm accumulates the squares unscaled: requests keep its entries within 1e-21..1e21 (Vector::Norm is "
-             "requested over the whole double range since fix 8a680df)",
              "Vector::Norm / Matrix::Norm: the model gives the exact sum of squares; the square root is compared "
              "through its square (DESIGN.md C04 [T2])"]
 ASSUMPTIONS = ["bitwise clauses: IEEE-754 binary64, round to nearest even, no fused multiply-add contraction (the project's x86-64 build has "
@@ -32,7 +30,7 @@ TRUSTED = ["props/c04.py `pyref`: the property's definitions written a second ti
 Z = Fraction(0)
 # clauses / families that wait for a patch of the integrator: while an id is listed here the family is not requested;
 # LP_ASSUME_FIXED=<id,...> requests it (rehearsal against a patched tree)
-PENDING = {"P13"}        # P13: Matrix::Norm over the whole double range (patch /tmp/fixprop-C04-2)
+PENDING = set()          # P13 applied in /repo as 75466a1
 
 
 def pending(pid):
